@@ -279,6 +279,79 @@ def _gen_struct(tape, env, want_stiff=None):
     return name
 
 
+def _add_struct(env, members, stiff):
+    name = env.fresh("S")
+    env.defs.append({"k": "struct", "name": name, "members": members})
+    env.types[name] = {"cat": "struct", "stiff": stiff}
+    env.order.append(name)
+    return name
+
+
+def _m(name, type_, arr=None, n=None, sizer=None, opt=False):
+    d = {"name": name, "type": type_, "arr": arr, "opt": opt}
+    if n is not None:
+        d["n"], d["ntext"] = n, str(n)
+    if sizer:
+        d["sizer"] = sizer
+    return d
+
+
+SHAPES = ["dyn-tail-optional", "nested-dyn-first", "nested-dyn-middle", "block-align-decreasing",
+          "union-arm-struct-with-optional", "optional-wide-and-enum", "ext-arrays-split", "greedy-of-dynamic-structs",
+          "limited-of-struct-with-optional", "nested-dyn-then-optional"]
+
+
+def _gen_shape(tape, env):
+    """Directed shapes (DESIGN.md 2.8): combinations the layout rules single out and random member drawing rarely
+    produces. Scalar types and sizes inside each shape are still drawn."""
+    small = tape.pick(["u8", "i8", "u16", "i16"])
+    small2 = tape.pick(["u8", "u16", "i8"])
+    wide = tape.pick(["u32", "u64", "i64", "r64", "u32"])
+    cnt = tape.pick(["u8", "u16", "u32"])
+    needs = {"dyn-tail-optional": ["arr_dynamic"], "block-align-decreasing": ["arr_dynamic"],
+             "greedy-of-dynamic-structs": ["arr_dynamic", "arr_greedy"]}
+    forbid = env.feats.get("_forbid", ())
+    allowed = [x for x in SHAPES if not any(n in forbid for n in needs.get(x, ()))]
+    k = allowed[tape.draw(len(allowed))]
+    if k == "dyn-tail-optional":
+        _add_struct(env, [_m("f1", small, "dynamic"), _m("f2", small2, opt=True)], DYNAMIC)
+    elif k in ("nested-dyn-first", "nested-dyn-middle", "nested-dyn-then-optional"):
+        inner = _add_struct(env, [_m("f1", cnt), _m("f2", small2, "ext", sizer="f1")], DYNAMIC)
+        if k == "nested-dyn-first":
+            _add_struct(env, [_m("f1", inner), _m("f2", wide)], DYNAMIC)
+        elif k == "nested-dyn-middle":
+            _add_struct(env, [_m("f1", "u8"), _m("f2", inner), _m("f3", small2), _m("f4", wide)], DYNAMIC)
+        else:
+            _add_struct(env, [_m("f1", inner), _m("f2", small, opt=True)], DYNAMIC)
+    elif k == "block-align-decreasing":
+        _add_struct(env, [_m("f1", wide, "dynamic"), _m("f2", "u8"), _m("f3", small2, "dynamic"), _m("f4", small)], DYNAMIC)
+    elif k == "union-arm-struct-with-optional":
+        item = _add_struct(env, [_m("f1", "u8"), _m("f2", small, opt=True)], FIXED)
+        u = env.fresh("U")
+        env.defs.append({"k": "union", "name": u, "arms": [{"name": "a1", "type": item, "disc": 1},
+                                                            {"name": "a2", "type": tape.pick(["u8", "u64", "u16"]), "disc": 2}]})
+        env.types[u] = {"cat": "union", "stiff": FIXED}
+        env.order.append(u)
+        _add_struct(env, [_m("f1", item, "limited", 3), _m("f2", u), _m("f3", item, opt=True), _m("f4", "u8")], FIXED)
+    elif k == "optional-wide-and-enum":
+        e = env.fresh("E")
+        env.defs.append({"k": "enum", "name": e, "members": [["%s_0" % e, 2 + tape.draw(3)], ["%s_1" % e, 0]]})
+        env.types[e] = {"cat": "enum", "stiff": FIXED}
+        env.order.append(e)
+        _add_struct(env, [_m("f1", "u8"), _m("f2", tape.pick(["u64", "i64", "r64"]), opt=True), _m("f3", e, opt=True),
+                          _m("f4", small)], FIXED)
+    elif k == "ext-arrays-split":
+        _add_struct(env, [_m("f1", cnt), _m("f2", "u16"), _m("f3", wide, "ext", sizer="f1"), _m("f4", "u8"),
+                          _m("f5", small, "ext", sizer="f2")], DYNAMIC)
+    elif k == "greedy-of-dynamic-structs":
+        el = _add_struct(env, [_m("f1", small, "dynamic"), _m("f2", "u32")], DYNAMIC)
+        _add_struct(env, [_m("f1", "i8"), _m("f2", small2, "ext", sizer="f1"), _m("f3", el, "greedy")], UNLIMITED)
+    elif k == "limited-of-struct-with-optional":
+        item = _add_struct(env, [_m("f1", small, opt=True), _m("f2", "u8")], FIXED)
+        _add_struct(env, [_m("f1", "u8"), _m("f2", item, "limited", 2), _m("f3", item, "fixed", 2), _m("f4", small)], FIXED)
+    return k
+
+
 def gen_schema(tape, cpp=False, max_defs=9, feats=None):
     """Draw a valid schema. cpp=True restricts to what the C++ full generator accepts."""
     if feats is None:
@@ -296,8 +369,15 @@ def gen_schema(tape, cpp=False, max_defs=9, feats=None):
         ]
         k = tape.weighted(weights) if sum(weights[:4]) else 4
         [_gen_const, _gen_enum, _gen_typedef, _gen_union, _gen_struct][k](tape, env)
-    _gen_struct(tape, env)
-    return {"defs": env.defs, "features": sorted(k for k, v in feats.items() if v)}
+    shape = None
+    if tape.chance(1, 4):
+        shape = _gen_shape(tape, env)
+    if shape is None or tape.chance(1, 2):
+        _gen_struct(tape, env)
+    out = {"defs": env.defs, "features": sorted(k for k, v in feats.items() if v and not k.startswith("_"))}
+    if shape:
+        out["shape"] = shape
+    return out
 
 
 def composites(schema):
